@@ -354,6 +354,19 @@ class ProgGen:
         if rng.random() < 0.15:
             # two distributions directly (args: tape, param)
             return ["cond", ["dist", rng.randrange(3)], ["dist", rng.randrange(3)]], 2
+        if rng.random() < 0.35 and depth > 0:
+            # both branches from one skeleton: shared addresses may be sub-calls
+            # (hierarchical addresses) with the same inner address structure
+            k = rng.choice([1, 2, 3])
+            addrs = rng.sample(range(self.naddr), min(self.naddr, k))
+            skel = []
+            for a in addrs:
+                if rng.random() < 0.5:
+                    inner = rng.sample(range(self.naddr), rng.choice([1, 2]))
+                    skel.append((a, inner, rng.choice([1, 2])))
+                else:
+                    skel.append((a, None, 0))
+            return ["cond", self.fn_from_skel(["S"] * m, skel), self.fn_from_skel(["S"] * m, skel)], m
         # branches with overlapping address sets; an address shared by both
         # branches is a distribution site in both (the implementation cannot
         # merge a leaf with a sub-map)
@@ -370,6 +383,23 @@ class ProgGen:
         if rng.random() < 0.5:
             g1, g2 = g2, g1
         return ["cond", g1, g2], m
+
+    def fn_from_skel(self, argtypes, skel):
+        env = list(argtypes)
+        calls = []
+        for a, inner, m_in in skel:
+            if inner is None:
+                sub = ["dist", self.rng.randrange(3)]
+                args = [self.sexpr(env, 1), self.sexpr(env, 2)]
+            else:
+                sub = self.fn_with_addrs(["S"] * m_in, 0, inner)
+                args = [self.sexpr(env, 2) for _ in range(m_in)]
+            calls.append((a, sub, args))
+            env.append("S")
+        p = ["ret", self.sexpr(env, 2)]
+        for a, sub, args in reversed(calls):
+            p = ["call", a, sub, args, p]
+        return ["fn", p]
 
     def fn_with_addrs(self, argtypes, depth, addrs):
         env = list(argtypes)
